@@ -320,6 +320,10 @@ func (s *Store[K, V]) GetWithSecodary(key K) (V, bool, error) {
 		// load and store should be atomic
 		shard.mu.Lock()
 		defer shard.mu.Unlock()
+		// once the shard lock is released the outcome is in the map: a caller
+		// that misses from then on (after a Delete, say) must look again
+		// instead of joining this finished call
+		defer shard.vgroup.Forget(key)
 		v, cost, expire, ok, err := s.secondaryCache.Get(key)
 		if err != nil {
 			return v, err
@@ -1272,6 +1276,10 @@ func (s *LoadingStore[K, V]) Get(ctx context.Context, key K) (V, error) {
 			// load and store should be atomic
 			shard.mu.Lock()
 			defer shard.mu.Unlock()
+			// once the shard lock is released the outcome is in the map: a caller
+			// that misses from then on (after a Delete, say) must load again
+			// instead of joining this finished call
+			defer shard.group.Forget(key)
 			if shard.closed {
 				return Loaded[V]{}, ErrCacheClosed
 			}
